@@ -32,9 +32,7 @@ def linear(expr):
         e = e[:-2]
     m = re.match(r'^(add|sub)\((.*)\)$', e)
     if not m:
-        if re.match(r'^[A-Za-z_][A-Za-z_0-9.:@()]*$', e) or re.match(r'^\d+$', e):
-            return Counter({e: 1})
-        return None
+        return Counter({e: 1}) if e else None
     inner = m.group(2)
     depth, cut = 0, None
     for i, ch in enumerate(inner):
@@ -119,7 +117,7 @@ def check_write(ctx, facts, fnpath, rule='charge-pairing'):
             # ordering: charge before write
             if wrote:
                 order = [c[0] for c in calls(o)]
-                wi = min(i for i, n in enumerate(order) if n.endswith('::write_all'))
+                wi = min(i for i, n in enumerate(order) if n.endswith('::write_all') or (n.endswith('::write') and 'std::io::Write' in n))
                 ai = min(i for i, n in enumerate(order) if is_atomic(n) and atomic_op(n) == 'fetch_add')
                 li = [i for i, n in enumerate(order) if n.endswith('max_temp_directory_size')]
                 if ai > wi or not li or li[0] > wi:
